@@ -311,7 +311,9 @@ class NamedQubit:
         if isinstance(alias_index, AnnotatedValue) or isinstance(
             alias_from, AnnotatedValue
         ):
-            if not isinstance(alias_index, (int, float, AnnotatedValue)):
+            if not isinstance(alias_index, (int, float, AnnotatedValue)) or (
+                isinstance(alias_index, float) and not alias_index.is_integer()
+            ):
                 raise JaqalError(f"Qubit index {alias_index} is not an integer.")
             if isinstance(alias_index, AnnotatedValue) and alias_index.kind not in (
                 ParamType.INT,
